@@ -5,9 +5,11 @@
 (* report for a given selection, and what the selection costs              *)
 (* (properties C02 and C05).                                               *)
 (*                                                                         *)
-(* Architectures are the node sequences of FeatGraph (2-D, no exclusions,  *)
-(* no concat): conv (incl. depthwise, optional BatchNorm that MPS folds),  *)
-(* lin (optional BatchNorm), relu, pool, flat, add.                        *)
+(* Architectures are the node sequences of FeatGraph (1-D or 2-D, no        *)
+(* concat): conv (incl. depthwise, optional BatchNorm that MPS folds in    *)
+(* 2-D), lin (optional BatchNorm), relu, pool, flat, add; a conv / lin     *)
+(* node may INVOKE AGAIN the layer object of an earlier node (reuse = m:   *)
+(* weight sharing, one MPS module, several call sites).                    *)
 (*                                                                         *)
 (* QUANTISATION POINTS.  After conversion the network re-quantises its     *)
 (* activations at: the network input (node id InQ), every conv / lin       *)
@@ -53,21 +55,34 @@ QPoint(a, t) == IF t = 0 THEN InQ(a)
 RefInPoint(a, L) == QPoint(a, In1(a, L))
 
 (* ---------------------- as implemented ---------------------------------- *)
-(* register_in_mps_quantizers: start from meta['input_features_set_by'] of *)
-(* the layer (associate_input_features: FeatGraph!SetByOf) and follow that *)
-(* field until an MPS module is met.  Only features-DEFINING nodes, flatten *)
-(* and the (forced defining) input quantiser are ever named by the field:   *)
-(* depthwise convs and MPSAdd modules are skipped.                          *)
+(* register_in_mps_quantizers.                                              *)
+(* walk = "pinned": start from meta['input_features_set_by'] of the layer   *)
+(*   (associate_input_features: FeatGraph!SetByOf) and follow that field    *)
+(*   until an MPS module is met.  Only features-DEFINING nodes, flatten and *)
+(*   the (forced defining) input quantiser are ever named by the field:     *)
+(*   depthwise convs and MPSAdd modules are skipped (finding F40).          *)
+(* walk = "fixed" (commit 1f98e61): walk back along the first input until   *)
+(*   an MPS module is met - the same recursion as QPoint.                   *)
+(* One MPS module has ONE input quantiser: the loop runs over the graph     *)
+(* nodes in order, so for a module with several call sites the LAST call    *)
+(* site decides (LastSite).                                                 *)
 RECURSIVE WalkQ(_, _)
 WalkQ(a, x) == IF x = 0 THEN InQ(a)
                ELSE IF IsLayer(a, x) THEN x
                ELSE WalkQ(a, SetByOf(a, In1(a, x)))          \* x is a flatten node
-AsisInPoint(a, L) == WalkQ(a, SetByOf(a, In1(a, L)))
+AsisInPoint(a, L) == WalkQ(a, SetByOf(a, In1(a, L)))          \* pinned walk from call site L
+SiteInPoint(walk, a, L) == IF walk = "pinned" THEN AsisInPoint(a, L) ELSE RefInPoint(a, L)
+ModuleInPoint(walk, a, L) == SiteInPoint(walk, a, LastSite(a, L))
+FirstSite(a, L) == LET cs == CallSites(a, Owner(a, L)) IN CHOOSE m \in cs : \A x \in cs : m <= x
+Owners(a)       == {Owner(a, L) : L \in Layers(a)}
+Reused(a, L)    == Cardinality(CallSites(a, Owner(a, L))) > 1
 
 (* ---------------------- groups ------------------------------------------ *)
 (* The group structure of an architecture is computed ONCE (GS) and handed   *)
 (* to the operators below as gs:                                             *)
-(*   rep  : node (0..N+1) -> smallest node of its sharing component          *)
+(*   rep  : node (0..N+1) -> smallest node of its sharing component (for a   *)
+(*          layer: of the component of the FIRST call site of its module)    *)
+(*   rep0 : the same, per call site                                          *)
 (*   flt  : representatives of the components that reach the network output  *)
 (*   qp   : tensor -> quantisation point it is on (reference dataflow)       *)
 (*   asis : layer -> quantisation point found by the as-implemented walk     *)
@@ -81,11 +96,16 @@ Labels(V, E, lab) ==
 RepMap(a) == LET V == AllNodes(a)
                  E == {e \in V \X V : Adj(a, e[1], e[2])}
              IN  Labels(V, E, [n \in V |-> n])
-GS(a) == LET rp == RepMap(a) IN
+\* a module invoked at several call sites has ONE output / weight quantiser: the group of its first call site
+\* (prediction; it only matters when the call sites lie in different components, see ReuseSplit)
+GS(walk, a) ==
+    LET rp0 == RepMap(a)
+        rp  == [n \in DOMAIN rp0 |-> IF n \in Layers(a) THEN rp0[FirstSite(a, n)] ELSE rp0[n]] IN
          [rep  |-> rp,
-          flt  |-> {rp[OutNode(a)]},
+          rep0 |-> rp0,
+          flt  |-> {rp0[OutNode(a)]},
           qp   |-> [t \in 0..N(a) |-> QPoint(a, t)],
-          asis |-> [L \in Layers(a) |-> AsisInPoint(a, L)]]
+          asis |-> [L \in Layers(a) |-> ModuleInPoint(walk, a, L)]]
 
 AGroup(gs, a, q)    == IF q = InQ(a) THEN InQ(a) ELSE gs.rep[q]
 IsFloatGroup(gs, g) == g \in gs.flt
@@ -108,8 +128,14 @@ InPt(impl, gs, a, L)   == IF impl = "ref" THEN RefIn(gs, a, L) ELSE gs.asis[L]
 (* re-quantised by a depthwise conv / an MPSAdd, but the walk ends at the    *)
 (* network-input quantiser (which is NOT a member of the placeholder's       *)
 (* sharing component).                                                       *)
-F40Layer(gs, a, L)  == gs.asis[L] = InQ(a) /\ RefIn(gs, a, L) # InQ(a)
+F40Layer(gs, a, L)  == AsisInPoint(a, L) = InQ(a) /\ RefIn(gs, a, L) # InQ(a)
 KF_InputProp(gs, a) == \E L \in Layers(a) : F40Layer(gs, a, L)
+(* A module invoked at call sites that do not share one quantiser group: its  *)
+(* single input quantiser is the one of the last call site's producer, its    *)
+(* single output / weight quantiser belongs to one component only.            *)
+ReuseSplit(gs, a, L) ==
+    Reused(a, L) /\ \E n, m \in CallSites(a, Owner(a, L)) :
+        gs.rep0[n] # gs.rep0[m] \/ AGroup(gs, a, RefIn(gs, a, n)) # AGroup(gs, a, RefIn(gs, a, m))
 \* a searchable layer (or add) shares its component with the network input
 InputConnected(gs, a) == \E q \in QNodes(a) : gs.rep[q] = 0
 \* one component mixes layers of different widths (one coefficient matrix for all)
@@ -139,25 +165,34 @@ StaticOut(a, L)      == Ch(a, L)
 
 (* ---------------------- costs ------------------------------------------- *)
 BitMetrics == {"params_bit", "ops_bit", "mpic_latency", "ne16_latency"}
-LKind(a, L)   == IF Op(a, L) = "lin" THEN "linear" ELSE "conv2d"
+LKind(a, L)   == IF Op(a, L) = "lin" THEN "linear" ELSE IF a.dim = 1 THEN "conv1d" ELSE "conv2d"
 CostFnOf(m, a, L) == [m |-> m, l |-> LKind(a, L), pat |-> IF IsDw(a, L) THEN "dw" ELSE "U"]
-HasBias(a, L) == Nd(a, L).bias \/ Nd(a, L).bn                 \* folding a BatchNorm creates the bias
+\* folding a BatchNorm creates the bias (MPS folds Conv2d-BN and Linear-BN, not Conv1d-BN)
+HasBias(a, L) == Nd(a, L).bias \/ (Nd(a, L).bn /\ (a.dim = 2 \/ Op(a, L) = "lin"))
 KOf(a, L)     == IF Op(a, L) = "lin" THEN 1 ELSE Nd(a, L).k
 OOf(a, L)     == IF Op(a, L) = "lin" THEN 1 ELSE Sp(a, L)
+K2Of(a, L)    == IF a.dim = 1 THEN 1 ELSE KOf(a, L)
+O2Of(a, L)    == IF a.dim = 1 THEN 1 ELSE OOf(a, L)
+\* geometry of CALL SITE L (the output size is a property of the invocation, not of the module)
 Desc(a, L, cin, cout, w, ab) ==
-    [cin |-> cin, cout |-> cout, kx |-> KOf(a, L), ky |-> KOf(a, L), ox |-> OOf(a, L), oy |-> OOf(a, L),
+    [cin |-> cin, cout |-> cout, kx |-> KOf(a, L), ky |-> K2Of(a, L), ox |-> OOf(a, L), oy |-> O2Of(a, L),
      w |-> w, a |-> ab, b |-> IF HasBias(a, L) THEN 1 ELSE 0, g |-> IF IsDw(a, L) THEN 0 ELSE 1, td |-> 1]
 
 \* can the metric be evaluated on this layer at all (documented restrictions of the models)
 Applicable(m, a, L, w, ab) ==
     CASE m = "mpic_latency" -> ab \in {2, 4, 8} /\ w \in {0, 2, 4, 8}
-      [] m = "ne16_latency" -> w = 0 \/ (ab = 8 /\ (IsDw(a, L) => KOf(a, L) = 3) /\ KOf(a, L) \in {1, 3})
+      [] m = "ne16_latency" -> (a.dim = 2 \/ Op(a, L) = "lin")      \* no Conv1d model is registered
+                               /\ (w = 0 \/ (ab = 8 /\ (IsDw(a, L) => KOf(a, L) = 3) /\ KOf(a, L) \in {1, 3}))
       [] OTHER -> TRUE
 
 \* cost as  num / den  (den = 1 except for the MPIC look-up table)
 RatNum(m, a, L, cin, cout, w, ab) ==
     LET fn == CostFnOf(m, a, L)  p == Desc(a, L, cin, cout, w, ab) IN CostInt(fn, p, 1) * CostNum(fn, p)
 RatDen(m, a, L, w, ab) == LET fn == CostFnOf(m, a, L) IN CostDen(fn, Desc(a, L, 1, 1, w, ab))
+
+\* CostSpec.shared: a layer object is charged once (params_bit) or once per invocation (all the others)
+SharedMetric(m)  == m = "params_bit"
+CostSites(m, a)  == IF SharedMetric(m) THEN Owners(a) ELSE Layers(a)
 
 BitsUsed(wb)  == {wb[ch] : ch \in DOMAIN wb}
 NWith(wb, b)  == Cardinality({ch \in DOMAIN wb : wb[ch] = b})
@@ -203,6 +238,22 @@ AsisDen(wbits, L) == Len(wbits[L])
 \* scenario predicates of the two cost findings, per layer
 F05Layer(a, L, wbits, tuple, pc) == pc /\ Has0(tuple) /\ NWith(wbits[L], 0) > 0
 F04Layer(a, L, wbits) == Op(a, L) = "lin" /\ (InEffW(a, wbits, L) # StaticIn(a, L) \/ OutEffW(wbits, L) # StaticOut(a, L))
+
+(* ---------------------- what theta encodes after a call history ---------- *)
+(* "soft"  no forward pass in a hard-sampling mode yet (the conversion samples the new MPS modules in       *)
+(*         training mode: a new model holds a SOFT theta) - the cost is a mixture, nothing is claimed       *)
+(* "fresh" the last sampling was an arg-max of the coefficients that are still installed (forward in eval   *)
+(*         mode, or in training mode with hard_softmax and the plain soft-max sampler)                      *)
+(* "stale" theta is one-hot but sampled with Gumbel noise, or the coefficients were replaced since          *)
+RECURSIVE ThetaFrom(_, _, _)
+ThetaFrom(h, i, st) ==
+    IF i > Len(h) THEN st
+    ELSE ThetaFrom(h, i + 1,
+            CASE h[i] \in {"fwd_eval", "fwd_hard"} -> "fresh"
+              [] h[i] = "fwd_ghard" -> "stale"
+              [] h[i] = "load" -> IF st = "soft" THEN "soft" ELSE "stale"
+              [] OTHER -> st)
+ThetaState(h) == ThetaFrom(h, 1, "soft")
 
 (* ---------------------- candidate tuples -------------------------------- *)
 RECURSIVE Arrangements(_, _)
